@@ -134,9 +134,13 @@ func (m *Manager) startPipeline(ctx context.Context, pipeline ledger.Pipeline) (
 
 	// ignore the cancel function, as it will be called by the pipeline at its end
 	subscription := make(chan uint64)
+	// closed once the last state handed over by the handler has been written
+	stateStored := make(chan struct{})
+	pipelineHandler.stateStored = stateStored
 
 	m.logger.Infof("starting handler")
 	go func() {
+		defer close(stateStored)
 		for lastLogID := range subscription {
 			if err := m.storage.StorePipelineState(ctx, pipeline.ID, lastLogID); err != nil {
 				m.logger.Errorf("Unable to store state: %s", err)
@@ -148,8 +152,10 @@ func (m *Manager) startPipeline(ctx context.Context, pipeline ledger.Pipeline) (
 			m.mu.Lock()
 			defer m.mu.Unlock()
 			defer m.pipelinesWaitGroup.Done()
-			close(subscription)
 		}()
+		// Run is the only sender: close as soon as it returns, without waiting for the manager lock
+		// (stopPipeline holds it while waiting for the last state to be stored).
+		defer close(subscription)
 		pipelineHandler.Run(ctx, subscription)
 	}()
 
@@ -169,6 +175,17 @@ func (m *Manager) stopPipeline(ctx context.Context, id string) error {
 
 	m.logger.Infof("pipeline terminated, pruning exporter...")
 	m.stopExporterIfNeeded(ctx, handler)
+
+	// The handler is stopped, but the last log id it exported may still be on its way to the store.
+	// Wait for it: a write landing after this point would overwrite what the caller does next
+	// (ResetPipeline clears last_log_id, DeletePipeline removes the row).
+	if handler.stateStored != nil {
+		select {
+		case <-handler.stateStored:
+		case <-ctx.Done():
+			return fmt.Errorf("error stopping pipeline: waiting for the pipeline state to be stored: %w", ctx.Err())
+		}
+	}
 
 	return nil
 }
